@@ -80,7 +80,7 @@ def final_length(ctx, info):
         allcols = col is not None and col[0] == 'elem' and col[1] == V('columns')
         # admissible guards: lock handling, or "length differs from nnz"
         bad = []
-        for c, p in e.guards:
+        for c, p in ((c if p else T.not_(c), True) for c, p in e.guards):
             if T.contains(c, V('lock')):
                 continue
             if c[0] == 'cmp' and c[1] in ('!=', '<', '<=') and T.contains(c, after) and \
